@@ -13,6 +13,12 @@ PROPS["C03"] = {
             "TestC03ScalarMul": T(400, 4000),
             "TestC03MSMSmall": T(400, 4000),
             "TestC03MSMLarge": T(16, 100),
+            "TestC03Ristretto": T(200, 2000),
+            "TestC03ImplModels": T(200, 2000),
+            "TestC03ImplScalarMul": T(200, 2000),
+            "TestC03ImplMSMSmall": T(200, 2000),
+            "TestC03ImplMSMLarge": T(16, 100),
+            "TestC03ImplRistretto": T(200, 2000),
         },
     }],
 }
